@@ -92,6 +92,16 @@ def lay(np, a, layout):
 
 def mk_data(ttb, np, rd):
     layout = rd.get("layout")
+    dt = rd.get("dtype")
+    if dt is not None:
+        # wave 5: the holder stores the (integer / 0-1) data in that numpy dtype instead of float64 - sptensor keeps the dtype of the
+        # values it is given (count data built from integer arrays), tensor keeps the dtype of the array
+        npdt = {"int64": np.int64, "int32": np.int32, "bool": np.bool_, "float32": np.float32, "uint8": np.uint8, "int8": np.int8}[dt]
+        if rd.get("sparse"):
+            s = np.array(rd["subs"], dtype=int).reshape((len(rd["subs"]), len(rd["shape"])))
+            v = np.array(rd["vals"]).astype(npdt).reshape((len(rd["vals"]), 1))
+            return ttb.sptensor(s, v, tuple(rd["shape"]), copy=True)
+        return ttb.tensor(np.array(rd["data"]).astype(npdt).reshape(tuple(rd["shape"]), order="F"), tuple(rd["shape"]), copy=True)
     if rd.get("sparse"):
         if layout is None:
             return tgen.mk_sptensor(ttb, np, rd["shape"], rd["subs"], rd["vals"])
